@@ -193,6 +193,8 @@ def gen_case_c03(rng):
         keys = [k for k in keys if k not in longk] + longk[:2]
     if b['kind'] == 'dir' and not is_source(b) and rng.random() < 0.04:
         keys.append(rng.choice(['data/x.csv', '/abs/path', "('a/b',)"]))     # path-like keys (recorded finding)
+    if b['kind'] == 'dir' and not is_source(b) and not is_json(b) and rng.random() < 0.04:
+        keys += [1, 1.0]                                                      # ==-equal keys of different type (recorded finding)
     if b['kind'] == 'dir' and not is_source(b) and rng.random() < 0.04:
         keys.append('L' * 300)     # entry directory name beyond the 255-byte limit (recorded finding)
     u = Uniq()
@@ -281,6 +283,12 @@ class Run03(object):
                     return os.sep in dir_fname(k)
                 except Exception:
                     return False
+            def _eqtwins(ks):
+                ks = [k for k in ks if type(k) in (int, float, bool)]
+                return any(a == b and type(a) is not type(b) for a in ks for b in ks)
+            if _eqtwins(self.keys_used):
+                # (1, 1.0 and True are one dict key; the directory archive names their entries apart)
+                mech = mech + ['dir-splits-equal-keys-of-different-type']
             if any(_sep(k) for k in self.keys_used):
                 # (a key whose entry name contains the path separator is stored as nested directories: the listing
                 # shows the first path component instead - any operation that lists the archive is affected)
@@ -984,7 +992,8 @@ def run_shard(prop, tier, seed, shard, nshards, opts):
         # directed witnesses of the recorded findings (same judge): they keep the KNOWN-FINDING lines on every
         # run and simply pass once a defect is repaired
         dirb = {'kind': 'dir', 'serialized': True, 'protocol': None}
-        for ops in ([['set', 'data/x.csv', 1], ['get', 'data/x.csv'], ['keys', 'data/x.csv'], ['len']],
+        for ops in ([['set', 1, 'one'], ['contains', 1.0], ['set', 1.0, 'float'], ['len']],
+                    [['set', 'data/x.csv', 1], ['get', 'data/x.csv'], ['keys', 'data/x.csv'], ['len']],
                     [['set', 'L' * 300, 1], ['get', 'L' * 300], ['set', 'short', 2], ['len']],
                     [['set', 'a-b', 1], ['set', 'a_b', 2], ['get', 'a-b'], ['len']]):
             case = {'backend': dirb, 'cached': False, 'ops': ops, 'seed': 1, 'directed': True}
